@@ -279,6 +279,11 @@ CHECKS["C10"]["runs"].append({"name": "run.cli.rendition", "files": [G + "c10_re
 CHECKS["C10"]["runs"].append({"name": "run.cli.fmp4.manyfrags", "files": CLIP, "fn": "VerifH_C10_fmp4", "workers": 16,
                               "params": {"DATETIME": 0, "MAXSEGS": 1, "MAXSAMPLES": 1, "PTSOFFBITS": 0}, "params_quick": {"FIXFRAGS": 13}, "params_thorough": {"FIXFRAGS": 20},
                               "reach": ["ran"], "budget_quick": 600, "budget_thorough": 3600, "qtimeout": 60000})
+# one moof carrying many track fragments of the same track (more than the completion channel holds)
+MANYTRAFS = {"name": "run.cli.fmp4.manytrafs", "files": CLIP, "fn": "VerifH_C10_fmp4", "workers": 16,
+             "params": {"DATETIME": 0, "MAXSEGS": 1, "FIXFRAGS": 1, "PTSOFFBITS": 0}, "params_quick": {"DUPTRAFS": 13}, "params_thorough": {"DUPTRAFS": 20},
+             "reach": ["ran"], "budget_quick": 600, "budget_thorough": 3600, "qtimeout": 60000}
+CHECKS["C10"]["runs"].append(MANYTRAFS)
 CHECKS["C13"] = {
     "technique": "the same real client stages on well-formed-but-unexpected parse results (every fMP4 codec kind, time scale 0, track-id permutations, empty fragments, absurd counts and values); engine panic / deadlock checks are the assertion",
     "bounds": {"quick": {"focus groups": "codec kinds (8) alone or beside video; time scales {90000,0,1,2^32-1}; init/fragment track ids in 1..4; 10..11 tracks; 0..2 fragments with/without tracks and samples",
@@ -382,6 +387,7 @@ TSRUN = {"name": "run.cli.ts", "files": CLITS, "fn": "VerifH_C10_ts", "workers":
          "reach": ["ran"], "budget_quick": 900, "budget_thorough": 7200, "qtimeout": 90000}
 CHECKS["C10"]["runs"] = CHECKS["C10"]["runs"] + [TSRUN]
 CHECKS["C09"]["runs"] = CHECKS["C09"]["runs"] + [dict(TSRUN, name="client.ts.times", prop="C10")]  # the client half of C09 (assertions carry C10's label)
+CHECKS["C12"]["runs"] = CHECKS["C12"]["runs"] + [dict(MANYTRAFS, name="client.fmp4.manytrafs", prop="C10")]
 CHECKS["C12"]["runs"] = CHECKS["C12"]["runs"] + [{"name": "conc.ts.backpressure", "files": CLITS, "fn": "VerifH_C12_tsBackpressure", "workers": 4, "reach": ["backpressure", "end"], "replay_timeout": 120}]
 CHECKS["C13"]["runs"] = CHECKS["C13"]["runs"] + [dict(TSRUN, name="run.cli.ts.unexpected", params={"UNEXPECTED": 1}, params_quick={"MAXSEGS": 2, "MAXV": 1, "MAXA": 2}, params_thorough={"MAXSEGS": 2, "MAXV": 1, "MAXA": 2})]
 CHECKS["C13"]["bounds"]["quick"]["mpeg-ts"] = "first segment with audio before the first video unit or without video data, 1..2 segments, symbolic 33-bit timestamps"
